@@ -525,6 +525,13 @@ theorem sSeq_tuple (g : List PyVal → R (List PyVal)) (xs : List PyVal) (j : Py
   cases h2
   exact ⟨ys, hys, rfl⟩
 
+theorem sSeq_set (g : List PyVal → R (List PyVal)) (fr : Bool) (xs : List PyVal) (j : PyVal)
+    (h : sSeq g (.set fr xs) = .ok j) : ∃ ys, g xs = .ok ys ∧ j = .list ys := by
+  simp only [sSeq, seqLike] at h
+  rcases bindE_eq_ok h with ⟨ys, hys, h2⟩
+  cases h2
+  exact ⟨ys, hys, rfl⟩
+
 theorem serZip_length (O : Oracles) : ∀ (fs : List FieldDecl) (xs ys : List PyVal),
     fs.length ≤ xs.length → serZip O fs xs = .ok ys → ys.length = xs.length
   | [], xs, ys, _, h => by simp only [serZip] at h; exact serAnyList_length xs ys h
@@ -737,7 +744,23 @@ theorem admits_field (O : Oracles) (S : String → String → Bool)
   | .enumCls cls names, n, v, _, _, _, hc, _ => by
     simp only [conforms] at hc
     exact adm_enumCls O _ S cls names v hc
-  | .seqAny k sz, n, v, hf, _, _, hc, _ => by
+  | .seqAny k sz, n, v, hf, _, _, hc, hr => by
+    intro j hj
+    simp only [fragF] at hf
+    simp only [regF] at hr
+    have hk : k = .list := by simpa using hf
+    subst hk
+    simp only [conforms, cSeq] at hc
+    cases v with
+    | list xs =>
+      simp only [seqElems, and_true_iff'] at hc
+      simp only [ser] at hj
+      obtain ⟨ys, hys, rfl⟩ := sSeq_list _ xs j hj
+      simp only [emit]
+      refine jsV_arrAny _ S sz ys (fun h => by simpa [seqLike, h, hys, distinctImages] using hr) ?_
+      rw [serAnyList_length xs ys hys]; exact hc.1.1.2
+    | _ => simp [seqElems] at hc
+  | .seqOf k f sz, n, v, hf, hrf, hd, hc, hr => by
     intro j hj
     simp only [fragF, and_true_iff'] at hf
     have hk : k = .list := by simpa using hf.1
@@ -746,13 +769,21 @@ theorem admits_field (O : Oracles) (S : String → String → Bool)
     cases v with
     | list xs =>
       simp only [seqElems, and_true_iff'] at hc
+      simp only [regF, seqLike, and_true_iff'] at hr
+      simp only [RefsFaithful] at hrf
+      simp only [refDepth] at hd
       simp only [ser] at hj
       obtain ⟨ys, hys, rfl⟩ := sSeq_list _ xs j hj
       simp only [emit]
-      refine jsV_arrAny _ S sz ys (fun h => by simp [h] at hf) ?_
-      rw [serAnyList_length xs ys hys]; exact hc.1.1.2
+      refine jsV_arrOf _ S sz (emit true f) ys (emit_shape true f)
+        (fun h => by simpa [h, hys, distinctImages] using hr.2) ?_ ?_
+      · rw [mapE_length _ xs ys hys]; exact hc.1.1.2
+      · refine mapE_all (ser O f) _ xs ys ?_ hys
+        intro x hx y hy
+        exact admits_field O S hS D f n x hf.2 hrf hd (List.all_eq_true.mp hc.2 x hx)
+          (List.all_eq_true.mp hr.1 x hx) y hy
     | _ => simp [seqElems] at hc
-  | .seqOf k f sz, n, v, hf, hrf, hd, hc, hr => by
+  | .seqPos k fs addl sz, n, v, hf, hrf, hd, hc, hr => by
     intro j hj
     simp only [fragF, and_true_iff'] at hf
     have hk : k = .list := by simpa using hf.1.1
@@ -761,29 +792,7 @@ theorem admits_field (O : Oracles) (S : String → String → Bool)
     cases v with
     | list xs =>
       simp only [seqElems, and_true_iff'] at hc
-      simp only [regF, seqLike] at hr
-      simp only [RefsFaithful] at hrf
-      simp only [refDepth] at hd
-      simp only [ser] at hj
-      obtain ⟨ys, hys, rfl⟩ := sSeq_list _ xs j hj
-      simp only [emit]
-      refine jsV_arrOf _ S sz (emit true f) ys (emit_shape true f) (fun h => by simp [h] at hf) ?_ ?_
-      · rw [mapE_length _ xs ys hys]; exact hc.1.1.2
-      · refine mapE_all (ser O f) _ xs ys ?_ hys
-        intro x hx y hy
-        exact admits_field O S hS D f n x hf.1.2 hrf hd (List.all_eq_true.mp hc.2 x hx)
-          (List.all_eq_true.mp hr x hx) y hy
-    | _ => simp [seqElems] at hc
-  | .seqPos k fs addl sz, n, v, hf, hrf, hd, hc, hr => by
-    intro j hj
-    simp only [fragF, and_true_iff'] at hf
-    have hk : k = .list := by simpa using hf.1.1.1
-    subst hk
-    simp only [conforms, cSeq] at hc
-    cases v with
-    | list xs =>
-      simp only [seqElems, and_true_iff'] at hc
-      simp only [regF, seqLike] at hr
+      simp only [regF, seqLike, and_true_iff'] at hr
       simp only [RefsFaithful] at hrf
       simp only [refDepth] at hd
       simp only [ser] at hj
@@ -791,32 +800,33 @@ theorem admits_field (O : Oracles) (S : String → String → Bool)
       have hlen1 : fs.length ≤ xs.length := by simpa using hc.1.2.1
       have hlen : ys.length = xs.length := serZip_length O fs xs ys hlen1 hys
       simp only [emit]
-      refine jsV_arrPos _ S sz addl (emitL true fs) ys (fun h => by simp [h] at hf) ?_ ?_ ?_
+      refine jsV_arrPos _ S sz addl (emitL true fs) ys
+        (fun h => by simpa [h, hys, distinctImages] using hr.2) ?_ ?_ ?_
       · rw [hlen]; exact hc.1.1.2
-      · exact admits_zip O S hS D fs n xs hf.1.2 hrf hd hc.2 hr ys hys
+      · exact admits_zip O S hS D fs n xs hf.2 hrf hd hc.2 hr.1 ys hys
       · intro ha
         rw [emitL_length, hlen]
         simpa [ha] using hc.1.2.2
     | _ => simp [seqElems] at hc
   | .tupleOf f u, n, v, hf, hrf, hd, hc, hr => by
     intro j hj
-    simp only [fragF, and_true_iff'] at hf
+    simp only [fragF] at hf
     simp only [conforms, cTuple] at hc
     cases v with
     | tuple xs =>
       simp only [and_true_iff'] at hc
-      simp only [regF] at hr
+      simp only [regF, and_true_iff'] at hr
       simp only [RefsFaithful] at hrf
       simp only [refDepth] at hd
       simp only [ser] at hj
       obtain ⟨ys, hys, rfl⟩ := sSeq_tuple _ xs j hj
       simp only [emit]
       refine jsV_arrOf _ S { uniq := u } (emit true f) ys (emit_shape true f)
-        (fun h => by simp at h; simp [h] at hf) (by simp [sizeOk, geLen, leLen]) ?_
+        (fun h => by simp at h; simpa [h, hys, distinctImages] using hr.2) (by simp [sizeOk, geLen, leLen]) ?_
       refine mapE_all (ser O f) _ xs ys ?_ hys
       intro x hx y hy
-      exact admits_field O S hS D f n x hf.1 hrf hd (List.all_eq_true.mp hc.2 x hx)
-        (List.all_eq_true.mp hr x hx) y hy
+      exact admits_field O S hS D f n x hf hrf hd (List.all_eq_true.mp hc.2 x hx)
+        (List.all_eq_true.mp hr.1 x hx) y hy
     | _ => simp at hc
   | .tuplePos fs u, n, v, hf, hrf, hd, hc, hr => by
     intro j hj
@@ -825,7 +835,7 @@ theorem admits_field (O : Oracles) (S : String → String → Bool)
     cases v with
     | tuple xs =>
       simp only [and_true_iff'] at hc
-      simp only [regF] at hr
+      simp only [regF, and_true_iff'] at hr
       simp only [RefsFaithful] at hrf
       simp only [refDepth] at hd
       simp only [ser] at hj
@@ -833,8 +843,8 @@ theorem admits_field (O : Oracles) (S : String → String → Bool)
       have hlen0 : fs.length = xs.length := by simpa using hc.1.2
       have hlen : ys.length = xs.length := serZip_length O fs xs ys (by omega) hys
       simp only [emit]
-      refine jsV_tupKws _ S u (emitL true fs) ys (fun h => by simp [h] at hf) ?_ ?_
-      · exact admits_zip O S hS D fs n xs hf.1.2 hrf hd hc.2 hr ys hys
+      refine jsV_tupKws _ S u (emitL true fs) ys (fun h => by simpa [h, hys, distinctImages] using hr.2) ?_ ?_
+      · exact admits_zip O S hS D fs n xs hf.2 hrf hd hc.2 hr.1 ys hys
       · rw [emitL_length]; omega
     | _ => simp at hc
   | .mapAny sz, n, v, _, _, _, hc, _ => by
@@ -951,8 +961,40 @@ theorem admits_field (O : Oracles) (S : String → String → Bool)
       have hp : plainScalar f = true := List.all_eq_true.mp hf.1.2 f hfm
       have hadm := admits_mem O S hS D fs n hf.2 hrf hd f hfm j hcf hrf'
       exact jsAnyL_of_mem _ S j _ _ (emitL_mem true fs f hfm) (hadm j (ser_plain_conf O f j hp hcf hrf'))
-  | .setAny _ _, _, _, hf, _, _, _, _ => by simp [fragF] at hf
-  | .setOf _ _ _, _, _, hf, _, _, _, _ => by simp [fragF] at hf
+  | .setAny imm sz, n, v, _, _, _, hc, hr => by
+    intro j hj
+    simp only [conforms, cSet] at hc
+    cases v with
+    | set fr xs =>
+      simp only [and_true_iff'] at hc
+      simp only [regF] at hr
+      simp only [ser] at hj
+      obtain ⟨ys, hys, rfl⟩ := sSeq_set _ fr xs j hj
+      simp only [emit]
+      refine jsV_setAny _ S sz ys (by simpa [hys, distinctImages] using hr) ?_
+      rw [serAnyList_length xs ys hys]; exact hc.1.2
+    | _ => simp at hc
+  | .setOf imm f sz, n, v, hf, hrf, hd, hc, hr => by
+    intro j hj
+    simp only [fragF] at hf
+    simp only [conforms, cSet] at hc
+    cases v with
+    | set fr xs =>
+      simp only [and_true_iff'] at hc
+      simp only [regF, and_true_iff'] at hr
+      simp only [RefsFaithful] at hrf
+      simp only [refDepth] at hd
+      simp only [ser] at hj
+      obtain ⟨ys, hys, rfl⟩ := sSeq_set _ fr xs j hj
+      simp only [emit]
+      refine jsV_setOf _ S sz (emit true f) ys (emit_shape true f)
+        (by simpa [hys, distinctImages] using hr.2) ?_ ?_
+      · rw [mapE_length _ xs ys hys]; exact hc.1.2
+      · refine mapE_all (ser O f) _ xs ys ?_ hys
+        intro x hx y hy
+        exact admits_field O S hS D f n x hf hrf hd (List.all_eq_true.mp hc.2 x hx)
+          (List.all_eq_true.mp hr.1 x hx) y hy
+    | _ => simp at hc
   | .oneOf _, _, _, hf, _, _, _, _ => by simp [fragF] at hf
   | .allOf _, _, _, hf, _, _, _, _ => by simp [fragF] at hf
   | .notF _, _, _, hf, _, _, _, _ => by simp [fragF] at hf
